@@ -459,6 +459,60 @@ def sched_check(obs):
              f"{k} = {a} after 1 request, {b} after 4 (connection socket closed={closed}, send_request outcomes {results})") for k, a, b in grown]
 
 
+def sched_selfclose(variant, prefix):
+    """A ready connection ends itself (a frame with an impossible length: its reader thread calls PeerConnection.close, which marks it
+    closed and asks the I/O thread to take it out of the tables).  Twice in a row on fresh connections of one peer: the first time
+    under the default schedule, the second time with every interleaving (bounded) of the reader thread inside close() / demand_attention
+    against the I/O thread at line granularity.  What the node retains after two such connections equals what it retains after one."""
+    import copy
+    from .. import scheddfs
+    import diameter.node.node as nn
+    import diameter.node.peer as pp
+    sk.install()
+    pts = {sk.code_of(pp.PeerConnection, "close"): None, sk.code_of(pp.PeerConnection, "demand_attention"): None}
+    for name in ("close_connection_socket", "remove_peer_connection", "_remove_peer_connection"):
+        if hasattr(nn.Node, name):
+            pts[sk.code_of(nn.Node, name)] = None
+    sk.set_line_points(pts)
+    ch = scheddfs.Chooser(prefix)
+    cfg = copy.deepcopy(SCHED_CFG)
+    sc = scenario.Scenario(cfg, chooser=ch, max_socks=1, start_plan=["refused"], app_timeout=1)
+    try:
+        nw = sc.start()
+        sc.apply(("accept",))
+        sc.apply(("m", 0, "cer_p0"))        # standing connection of the other peer
+        ms = []
+        for rnd in range(2):
+            sc.max_socks = len(sc.socks) + 1
+            if not sc.apply(("accept",)):
+                raise sk.HarnessError("set-up: accept refused")
+            c = len(sc.socks) - 1
+            if not sc.apply(("m", c, "cer_p1")):
+                raise sk.HarnessError("set-up: CER refused")
+            if rnd == 1:
+                nw.world.points_on = True
+                ch.window = True
+            sc.apply(("m", c, variant))
+            ch.window = False
+            nw.world.points_on = False
+            for _ in range(3):
+                sc.apply(("m", 0, "dwr"))
+                sc.apply(("tick", 3))
+            ms.append(measure(sc))
+        m1, m2 = ms
+        grown = tuple(sorted((k, m1.get(k, 0), m2.get(k, 0)) for k in set(m1) | set(m2) if m1.get(k, 0) != m2.get(k, 0)))
+        obs = ("self-closing:" + variant, grown, sc.socks[-1].fs.closed, (), tuple(nw.thread_failures()))
+        return obs, ch
+    finally:
+        sc.close()
+
+
+def sched_selfclose_check(obs):
+    variant, grown, closed, results, fails = obs
+    return [(f"growth:{k}:per:connection-ending-itself:{variant}:under-some-schedule",
+             f"{k} = {a} after one such connection, {b} after two (socket of the second closed={closed})") for k, a, b in grown]
+
+
 HANDOVER_VARIANTS = [(msg, fault) for msg in ("cea_ok", "cer_p0") for fault in ("eof", "clock")]
 
 
@@ -684,9 +738,9 @@ def run(tier):
     import functools
     from .. import scheddfs
     bound = 2 if tier == "thorough" else 1
-    tasks = [(functools.partial(sched_execute, v), sched_check, bound) for v in SCHED_VARIANTS]
+    tasks = [(functools.partial(sched_execute, v), sched_check, bound) for v in SCHED_VARIANTS] + [(functools.partial(sched_selfclose, "badlen"), sched_selfclose_check, bound)]
     nsched = 0
-    for v, r in zip(SCHED_VARIANTS, (scheddfs.explore_many(tasks) if tier != "thorough" else scheddfs.explore_many_capped(tasks, 1, 600))):
+    for v, r in zip(SCHED_VARIANTS + ("selfclose:badlen",), (scheddfs.explore_many(tasks) if tier != "thorough" else scheddfs.explore_many_capped(tasks, 1, 600))):
         nsched += r["executions"]
         for (key, detail), choices in r["violations"]:
             rep.add(Violation(key, f"[{v}, bound {bound}] choices {choices}: {detail}", {"sched": v, "choices": choices}))
@@ -727,6 +781,9 @@ def replay(case):
     if "sched" in case:
         import functools
         from .. import scheddfs
+        if case["sched"].startswith("selfclose:"):
+            obs, ch = scheddfs.replay_choices(functools.partial(sched_selfclose, case["sched"].split(":", 1)[1]), case["choices"])
+            return [Violation(k, d) for k, d in sched_selfclose_check(obs)]
         obs, ch = scheddfs.replay_choices(functools.partial(sched_execute, case["sched"]), case["choices"])
         return [Violation(k, d) for k, d in sched_check(obs)]
     names, lo, hi, grown, fails, size, pol = work((tuple(case["cycles"]), case.get("lo", 2), case.get("hi", 5), case.get("policy"), False, case.get("transport")))
